@@ -160,6 +160,14 @@ func (ipv6cp *IPV6CPStateMachine) setState(newState IPV6CPState) {
 	oldState := ipv6cp.state
 	ipv6cp.state = newState
 
+	// The restart timer runs only while a Configure- or Terminate-Request is
+	// outstanding (RFC 1661 section 4.6): it is stopped on entering a state
+	// without one, not by every packet that happens to arrive.
+	switch newState {
+	case IPV6CPStateInitial, IPV6CPStateStarting, IPV6CPStateClosed, IPV6CPStateStopped, IPV6CPStateOpened:
+		ipv6cp.stopTimer()
+	}
+
 	ipv6cp.logger.Debug("IPV6CP state change",
 		zap.String("from", oldState.String()),
 		zap.String("to", newState.String()),
@@ -428,8 +436,6 @@ func (ipv6cp *IPV6CPStateMachine) receiveConfigureAck(pkt *LCPPacket) error {
 		return nil
 	}
 
-	ipv6cp.stopTimer()
-
 	switch ipv6cp.state {
 	case IPV6CPStateClosed, IPV6CPStateStopped:
 		ipv6cp.sendTerminateAck(pkt.Identifier)
@@ -455,8 +461,6 @@ func (ipv6cp *IPV6CPStateMachine) receiveConfigureNak(pkt *LCPPacket) error {
 	if pkt.Identifier != ipv6cp.lastIdentifier {
 		return nil
 	}
-
-	ipv6cp.stopTimer()
 
 	// Process NAK options
 	opts, _ := ParseLCPOptions(pkt.Data)
@@ -493,8 +497,6 @@ func (ipv6cp *IPV6CPStateMachine) receiveConfigureReject(pkt *LCPPacket) error {
 		return nil
 	}
 
-	ipv6cp.stopTimer()
-
 	switch ipv6cp.state {
 	case IPV6CPStateClosed, IPV6CPStateStopped:
 		ipv6cp.sendTerminateAck(pkt.Identifier)
@@ -514,8 +516,6 @@ func (ipv6cp *IPV6CPStateMachine) receiveConfigureReject(pkt *LCPPacket) error {
 
 // receiveTerminateRequest handles incoming Terminate-Request
 func (ipv6cp *IPV6CPStateMachine) receiveTerminateRequest(pkt *LCPPacket) error {
-	ipv6cp.stopTimer()
-
 	switch ipv6cp.state {
 	case IPV6CPStateClosed, IPV6CPStateStopped, IPV6CPStateClosing, IPV6CPStateStopping:
 		ipv6cp.sendTerminateAck(pkt.Identifier)
@@ -533,8 +533,6 @@ func (ipv6cp *IPV6CPStateMachine) receiveTerminateRequest(pkt *LCPPacket) error 
 
 // receiveTerminateAck handles incoming Terminate-Ack
 func (ipv6cp *IPV6CPStateMachine) receiveTerminateAck(pkt *LCPPacket) error {
-	ipv6cp.stopTimer()
-
 	switch ipv6cp.state {
 	case IPV6CPStateClosing:
 		ipv6cp.setState(IPV6CPStateClosed)
